@@ -62,7 +62,7 @@ type c14Node struct {
 }
 
 func c14Collect(m *yang.Stmt) []c14Node {
-	pfx := m.Find("prefix").Arg
+	pfx := c14ModPrefix(m)
 	var out []c14Node
 	var walk func(parent *yang.Stmt, path string, plain bool)
 	walk = func(parent *yang.Stmt, path string, plain bool) {
@@ -94,6 +94,21 @@ func c14GenCfg(r *core.Rng, groupings bool) yang.GenCfg {
 	return cfg
 }
 
+// c14ModName, c14ModPrefix: the module a module or submodule text belongs to, and the prefix it has there.
+func c14ModName(m *yang.Stmt) string {
+	if m.Kw == "submodule" {
+		return m.Find("belongs-to").Arg
+	}
+	return m.Arg
+}
+
+func c14ModPrefix(m *yang.Stmt) string {
+	if m.Kw == "submodule" {
+		return m.Find("belongs-to").Find("prefix").Arg
+	}
+	return m.Find("prefix").Arg
+}
+
 var depRe = regexp.MustCompile(`^(?:([^:]+):)?(.+)$`)
 
 // featureClosure: which "<module>:<feature>" are really enabled.
@@ -106,8 +121,8 @@ func featureClosure(ms *yang.ModSet, enabled map[string]bool) map[string]bool {
 	resolve := func(m *yang.Stmt, ref string) string {
 		mm := depRe.FindStringSubmatch(ref)
 		pf, name := mm[1], mm[2]
-		if pf == "" || pf == m.Find("prefix").Arg {
-			return m.Arg + ":" + name
+		if pf == "" || pf == c14ModPrefix(m) {
+			return c14ModName(m) + ":" + name
 		}
 		for _, imp := range m.FindAll("import") {
 			if imp.Find("prefix").Arg == pf {
@@ -122,7 +137,7 @@ func featureClosure(ms *yang.ModSet, enabled map[string]bool) map[string]bool {
 			for _, iff := range f.FindAll("if-feature") {
 				d.deps = append(d.deps, resolve(m, iff.Arg))
 			}
-			defs[m.Arg+":"+f.Arg] = d
+			defs[c14ModName(m)+":"+f.Arg] = d
 		}
 	}
 	memo := map[string]int{}
@@ -150,21 +165,22 @@ func featureClosure(ms *yang.ModSet, enabled map[string]bool) map[string]bool {
 	return out
 }
 
-// pruneAbsent deletes every data node with a disabled if-feature.
+// pruneAbsent deletes every data node with a disabled if-feature and takes
+// the (enabled) if-features off the nodes that stay.
 // keepEmptyCase mimics a known finding: the implicit case of an absent
 // shorthand node stays behind as an empty case (used only to classify).
 func pruneAbsent(ms *yang.ModSet, on map[string]bool, keepEmptyCase bool) (*yang.ModSet, int) {
 	out := ms.Clone()
 	removed := 0
 	for _, m := range out.Mods {
-		pf := m.Find("prefix").Arg
-		imports := map[string]string{pf: m.Arg}
+		pf := c14ModPrefix(m)
+		imports := map[string]string{pf: c14ModName(m)}
 		for _, imp := range m.FindAll("import") {
 			imports[imp.Find("prefix").Arg] = imp.Arg
 		}
 		enabledRef := func(ref string) bool {
 			mm := depRe.FindStringSubmatch(ref)
-			mod := m.Arg
+			mod := c14ModName(m)
 			if mm[1] != "" {
 				mod = imports[mm[1]]
 			}
@@ -188,6 +204,11 @@ func pruneAbsent(ms *yang.ModSet, on map[string]bool, keepEmptyCase bool) (*yang
 							kids = append(kids, &yang.Stmt{Kw: "case", HasArg: true, Arg: k.Arg, Block: true})
 						}
 						continue
+					}
+					// (present: the reference says so without any if-feature, or a feature
+					// wrongly taken as off would remove the node on both sides)
+					for _, iff := range k.FindAll("if-feature") {
+						k.Remove(iff)
 					}
 				}
 				walk(k)
@@ -262,8 +283,8 @@ func c14GenA(r *core.Rng, idx int) c14Case {
 	leaf := func(n string, extra ...*yang.Stmt) *yang.Stmt {
 		return yang.S("leaf", n, append([]*yang.Stmt{yang.S("type", "string")}, extra...)...)
 	}
-	variant := (idx / 3) % 24
-	bad := (idx/3/24)%2 == 0 // (both polarities of every variant: the polarity changes once per cycle over the variants)
+	variant := (idx / 3) % 27
+	bad := (idx/3/27)%2 == 0 // (both polarities of every variant: the polarity changes once per cycle over the variants)
 	c.expect = "accept"
 	if bad {
 		c.expect = "reject"
@@ -455,6 +476,37 @@ func c14GenA(r *core.Rng, idx int) c14Case {
 			sp.Add(yang.S("status", st))
 		}
 		top.Add(sp)
+	case 24, 25, 26: // feature statements written in a submodule are checked like those of the module
+		sub := yang.S("submodule", m.Arg+"-sf", yang.S("belongs-to", m.Arg, yang.S("prefix", m.Find("prefix").Arg)))
+		switch variant {
+		case 24:
+			sb := yang.S("feature", "sb")
+			if bad {
+				sb.Add(yang.S("if-feature", "sa"))
+			}
+			sub.Add(yang.S("feature", "sa", yang.S("if-feature", "sb")), sb)
+			c.what = "features of a submodule that depend on each other in a cycle"
+			if !bad {
+				c.what = "features of a submodule that depend on each other in a chain"
+			}
+		case 25:
+			dep := "sb"
+			if bad {
+				dep = "nope"
+			}
+			sub.Add(yang.S("feature", "sa", yang.S("if-feature", dep)), yang.S("feature", "sb"))
+			c.what = "feature of a submodule with an if-feature on the feature " + dep + " (sa and sb are defined)"
+		default:
+			name := "other-f"
+			if bad {
+				name = "dup-f"
+			}
+			m.Add(yang.S("feature", "dup-f"))
+			sub.Add(yang.S("feature", name))
+			c.what = "module with feature dup-f and a submodule with feature " + name
+		}
+		m.Add(yang.S("include", sub.Arg))
+		ms.Mods = append(ms.Mods, sub)
 	default: // identity based on a more obsolete identity
 		st := "obsolete"
 		if bad {
@@ -548,6 +600,37 @@ func c14GenB(r *core.Rng) c14Case {
 		m0.Add(yang.S("rpc", "feat-rpc", yang.S("if-feature", "f0"), c14Input(yang.S("leaf", "x", yang.S("type", "string")))),
 			yang.S("notification", "feat-notif", yang.S("if-feature", "f0"), yang.S("leaf", "y", yang.S("type", "string"))))
 		yang.SortSections(m0)
+	}
+	// features defined in a submodule: they are features of the module (RFC 6020 sec. 6.2.1: one feature
+	// namespace for a module and its submodules), referenced from the submodule, the module and an importing module
+	if m0 := ms.Mods[0]; m0.Kw == "module" && m0.Find("include") == nil && r.Chance(1, 3) {
+		pf := m0.Find("prefix").Arg
+		sub := yang.S("submodule", m0.Arg+"-feat", yang.S("belongs-to", m0.Arg, yang.S("prefix", pf)),
+			yang.S("feature", "sf0"),
+			yang.S("feature", "sf1", yang.S("if-feature", "sf0")),
+			yang.S("container", "sub-feat",
+				yang.S("leaf", "in-sub-plain", yang.S("type", "string")),
+				yang.S("leaf", "in-sub-sf0", yang.S("type", "string"), yang.S("if-feature", "sf0")),
+				yang.S("leaf", "in-sub-sf1", yang.S("type", "string"), yang.S("if-feature", pf+":sf1"))))
+		m0.Add(yang.S("include", sub.Arg))
+		m0.Add(yang.S("container", "sub-feat-user",
+			yang.S("leaf", "in-mod-plain", yang.S("type", "string")),
+			yang.S("leaf", "in-mod-sf0", yang.S("type", "string"), yang.S("if-feature", "sf0")),
+			yang.S("leaf", "in-mod-sf1", yang.S("type", "string"), yang.S("if-feature", "sf1"))))
+		yang.SortSections(m0)
+		if len(ms.Mods) >= 2 {
+			b := ms.Mods[1]
+			for _, imp := range b.FindAll("import") {
+				if imp.Arg == m0.Arg {
+					b.Add(yang.S("container", "sub-feat-importer", yang.S("leaf", "in-imp-plain", yang.S("type", "string")),
+						yang.S("leaf", "in-imp-sf1", yang.S("type", "string"), yang.S("if-feature", imp.Find("prefix").Arg+":sf1"))))
+					yang.SortSections(b)
+					break
+				}
+			}
+		}
+		ms.Mods = append(ms.Mods, sub)
+		ms.Features = append([]string{m0.Arg + ":sf0", m0.Arg + ":sf1"}, ms.Features...)
 	}
 	// a denser feature dependency DAG (only on earlier features)
 	var all []*yang.Stmt
